@@ -271,3 +271,117 @@ def run(chk, cid, prog, p, cfgname, ilu=False):
               'the position of the remembered pivot row must start from an invalid marker (SLU_EMPTY) and be tested against it before use: when the row does not '
               'occur in this column the remembered pivots have to be abandoned, not replaced by whatever candidate the default points to')
     return n
+
+
+def pivrow_in_sync_rule(chk, cid, prog, p, cfgname, ilu=False):
+    """?pivotL keeps the chosen pivot twice: `pivptr` (its position in the supernode's row list, used for the row interchange and the scaling)
+    and `*pivrow` (its row number, recorded in perm_r and handed back to ?gstrf).  They must name the same row when `perm_r[*pivrow] = jcol` is
+    executed, otherwise perm_r records one row while another is moved to the diagonal.  Dataflow over the CFG with the pairs
+    (in sync?, *usepr known true / false / unknown): `*pivrow = lsub_ptr[pivptr]` and `pivptr = old_pivptr` (old_pivptr is by construction the
+    position of the remembered row *pivrow) establish the agreement, any other assignment to pivptr or *pivrow destroys it; tests of *usepr
+    split the state, so the block that is skipped when the remembered pivot is kept is not a false path."""
+    from ..run import AnalysisBroken
+    f = prog.func(('ilu_' if ilu else '') + p + 'pivotL')
+    if f is None:
+        raise AnalysisBroken('%spivotL not found' % p)
+    chk.saw(unit=f.unit, func=f.unit + ':' + f.name)
+    ids = {n_: i for (n_, i, t) in f.params}
+    usepr, pivrow, perm_r = ids.get('usepr'), ids.get('pivrow'), ids.get('perm_r')
+    pivptr = next((vid for vid, v in f.locals.items() if v.a.get('name') == 'pivptr'), None)
+    oldp = next((vid for vid, v in f.locals.items() if v.a.get('name') == 'old_pivptr'), None)
+    if None in (usepr, pivrow, perm_r, pivptr, oldp):
+        raise AnalysisBroken('%s: usepr / pivrow / perm_r / pivptr / old_pivptr not found' % f.name)
+    cfg = prog.cfg(f)
+
+    def deref(e, pid):
+        e = strip(e)
+        return e.k == 'Unary' and e.a['op'] == '*' and strip(e.c[0]).k == 'Ref' and strip(e.c[0]).a.get('id') == pid
+
+    def is_var(e, vid):
+        e = strip(e)
+        return e.k == 'Ref' and e.a.get('id') == vid
+
+    def transfer(ast, st):
+        out = set()
+        for (sync, up) in st:
+            for x in _post_order(ast):
+                if x.k != 'Assign' or x.a['op'] != '=':
+                    continue
+                lhs, rhs = x.c[0], strip(x.c[1])
+                if is_var(lhs, pivptr):
+                    sync = is_var(rhs, oldp)
+                elif deref(lhs, pivrow):
+                    sync = rhs.k == 'Index' and any(is_var(y, pivptr) or (y.k == 'Assign' and is_var(y.c[0], pivptr)) for y in rhs.c[1].walk())
+                elif deref(lhs, usepr):
+                    v = const_value(rhs)
+                    up = 'F' if v == 0 else ('T' if v is not None else '?')
+            out.add((sync, up))
+        return frozenset(out)
+
+    def usepr_test(ast):
+        """+1: true edge means *usepr != 0; -1: true edge means *usepr == 0; 0: no test of *usepr"""
+        c = strip(ast)
+        if deref(c, usepr):
+            return 1
+        if c.k == 'Binary' and c.a['op'] in ('==', '!=') and deref(c.c[0], usepr) and const_value(c.c[1]) == 0:
+            return -1 if c.a['op'] == '==' else 1
+        return 0
+    IN = {cfg.entry.id: frozenset([(False, '?')])}
+    work = [cfg.entry.id]
+    stores = []
+    while work:
+        nid = work.pop()
+        node = cfg.nodes[nid]
+        st = IN[nid]
+        if node.ast is not None and node.kind in ('stmt', 'cond', 'return'):
+            st2 = transfer(node.ast, st)
+        else:
+            st2 = st
+        t = usepr_test(node.ast) if (node.kind == 'cond' and node.ast is not None) else 0
+        for (s_, lab) in node.succ:
+            out = st2
+            if t and lab in (True, False):
+                want_true = (lab is True) == (t == 1)
+                out = frozenset((sy, 'T' if want_true else 'F') for (sy, up) in st2 if up in ('?', 'T' if want_true else 'F'))
+                if not out:
+                    continue
+            if s_ not in IN:
+                IN[s_] = out
+                work.append(s_)
+            elif not out <= IN[s_]:
+                IN[s_] = IN[s_] | out
+                work.append(s_)
+    n = 0
+    for node in cfg.nodes:
+        if node.ast is None or node.kind != 'stmt' or node.id not in IN:
+            continue
+        for x in node.ast.walk():
+            if x.k == 'Assign' and strip(x.c[0]).k == 'Index' and is_var(strip(x.c[0]).c[0], perm_r) and deref(strip(x.c[0]).c[1], pivrow):
+                # state just before this statement (the store itself does not touch pivptr / *pivrow)
+                n += 1
+                inst = '%s:perm_r-records-the-row-at-pivptr@%d' % (f.name, n)
+                bad = [s_ for s_ in IN[node.id] if not s_[0]]
+                pre_sync = _sync_before(x, node, IN[node.id], transfer)
+                if pre_sync:
+                    chk.ok(cid, inst, sample='`%s`: on every path *pivrow == lsub_ptr[pivptr]' % pretty(x)[:40])
+                else:
+                    chk.violate(cid, inst, loc(f, x), f.name,
+                                '`%s` can be reached with pivptr changed after *pivrow was set (e.g. the diagonal chosen by the threshold test): perm_r then records a '
+                                'row other than the one that is moved to the pivot position, so Pr*A*Pc = L*U fails and L lists a wrong row' % pretty(x)[:40],
+                                cfgname=cfgname)
+    if n < 1:
+        raise AnalysisBroken('%s: store perm_r[*pivrow] not found' % f.name)
+    return n
+
+
+def _post_order(e):
+    for c in e.c:
+        for y in _post_order(c):
+            yield y
+    yield e
+
+
+def _sync_before(store, node, st, transfer):
+    # statements are CFG nodes of their own: the in-state of the node is the state before the store unless the same statement also assigns
+    # *pivrow (`perm_r[*pivrow = ..] = jcol` does not occur); evaluate the statement's own effects first to be safe
+    return all(sy for (sy, up) in transfer(node.ast, st)) if any(y.k == 'Assign' and y is not store for y in node.ast.walk()) else all(sy for (sy, up) in st)
